@@ -24,7 +24,7 @@ def run(tier):
                "(pairs: the two tuples without position); non-trivial = the base input has >=2 members and >=1 other valid instruction around the fault. "
                "Fault-free cases are distinct by (family, foreign attribute).")
     g = xgen.G(common.rng_for("C15", tier))
-    nb = 2 if tier == "quick" else 12
+    nb = 5 if tier == "quick" else 14
     bases = []
     for p in PROFILES:
         for _ in range(nb):
@@ -47,7 +47,7 @@ def run(tier):
                     cases.append(("single", it.render(), dict(faults=[f], pos=pos, spell=spell, profile=b.meta["profile"], nt=nontrivial(b), base=b.render())))
     # pairs
     names = list(faults.INJECTORS)
-    npair = 3 if tier == "quick" else 14
+    npair = 6 if tier == "quick" else 16
     for a, b_ in itertools.combinations_with_replacement(names, 2):
         if a == b_ and a in ("no_trait",):
             continue
@@ -76,7 +76,7 @@ def run(tier):
                 continue  # the second may undo the first on the same instruction
             cases.append(("pair", it.render(), dict(faults=[fa, fb], profile=b.meta["profile"], nt=nontrivial(b), base=b.render())))
     # fault-free
-    nfree = 400 if tier == "quick" else 12000
+    nfree = 1200 if tier == "quick" else 14000
     for i in range(nfree):
         it = xgen.gen(g)
         fa = None
